@@ -6,6 +6,7 @@ package c05
 //
 //	ok     the property defines the result (value and dynamic type)
 //	fails  the property defines that the operation is an error (`%` by zero)
+//	typeonly  the property fixes only the dynamic type (float64) of the result
 //	undef  the property is silent for this operand-kind combination (or the
 //	       case is excluded for resources): never compared, never generated
 //	       as a sub-expression of a compared case
@@ -22,6 +23,13 @@ const (
 	ok status = iota
 	fails
 	undef
+	// typeonly: the property fixes the dynamic type of the result but not its
+	// value: `-` and `*` with exactly one float64 operand and a string operand
+	// ("`+ - *` ... are carried out in float64 as soon as one operand is a
+	// float"; how a string is read as a number is not specified).  The returned
+	// Val only carries the kind.  A typeonly node is compared at the root of a
+	// tree only; as an operand its value is unknown, so the parent is undef.
+	typeonly
 )
 
 // MaxRepeat / MaxStrLen bound `string * n`: larger counts or results are not
@@ -55,6 +63,9 @@ func sprint(v vp.Val) string {
 }
 
 func refBinary(op string, a, b vp.Val) (vp.Val, status) {
+	if (op == "-" || op == "*") && ((a.K == vp.Float && b.K == vp.Str) || (a.K == vp.Str && b.K == vp.Float)) {
+		return vp.Val{K: vp.Float}, typeonly
+	}
 	ii := a.K == vp.Int && b.K == vp.Int
 	// numeric with at least one float
 	fl := isNum(a) && isNum(b) && !ii
@@ -198,17 +209,20 @@ func (n *node) eval(vals []vp.Val) (vp.Val, status) {
 	}
 	if n.un {
 		x, st := n.l.eval(vals)
+		if st == typeonly {
+			return x, undef
+		}
 		if st != ok {
 			return x, st
 		}
 		return refUnary(n.op, x)
 	}
 	a, sa := n.l.eval(vals)
-	if sa == undef {
+	if sa == undef || sa == typeonly {
 		return a, undef
 	}
 	b, sb := n.r.eval(vals)
-	if sb == undef {
+	if sb == undef || sb == typeonly {
 		return b, undef
 	}
 	if sa == fails || sb == fails {
